@@ -949,7 +949,45 @@ func init() {
 			}
 			e.close()
 		}
-		c.close([]string{"baseline:loaded:cookie", "baseline:loaded:redis", "baseline:loaded:csrf", "baseline:loaded:split",
+		// ---- a deployment that moves between the two stores (a rolling change, a restart with another session-store-type; cookie name
+		// and secret stay): the TICKET cookie of the server-side store is a correctly signed cookie of the same name — it is not a session
+		// of the cookie store, under any secret (and neither is the cookie store's session a ticket)
+		{
+			mr, err := miniredis.Run()
+			if err != nil {
+				c.violation("HARNESS", "miniredis: "+err.Error(), nil)
+			} else {
+				nSecrets := 500 * c.scale
+				for i := 0; i < nSecrets; i++ {
+					secret := tmRandStr(r, []int{32, 16, 24}[i%3], tmAlnum)
+					name := []string{"_oauth2_proxy", "sess", "__Secure-sess.id"}[(i/3)%3]
+					er, err1 := tmNewEnvMR(c, "redis", name, secret, "cross", 168*time.Hour, mr)
+					ec, err2 := tmNewEnv(c, "cookie", name, secret, "cross", 168*time.Hour)
+					if err1 != nil || err2 != nil {
+						c.violation("HARNESS", fmt.Sprintf("env: %v %v", err1, err2), nil)
+						continue
+					}
+					er.noScan, ec.noScan = true, true
+					T, errT := er.save(r, false, now(), "")
+					S, errS := ec.save(r, false, now(), "")
+					if errT != nil || errS != nil || len(T.cookies) != 1 {
+						c.violation("HARNESS", fmt.Sprintf("save failed: %v %v", errT, errS), nil)
+						continue
+					}
+					c.count("cross-store")
+					if ss, err := ec.store.Load(tmReq(T.cookies)); err == nil && ss != nil {
+						c.violation("C02", "the cookie store accepted the server-side store's TICKET cookie (same cookie name, same secret) as a session: a value that is no session it issued was decoded into one",
+							map[string]interface{}{"cookie_name": name, "secret_length": len(secret), "secret_no": i, "decoded_email": ss.Email, "decoded_user": ss.User})
+					}
+					if ss, err := er.store.Load(tmReq(S.cookies)); err == nil && ss != nil {
+						c.violation("C02", "the server-side store accepted a cookie-store session cookie as a ticket", map[string]interface{}{"cookie_name": name, "secret_no": i})
+					}
+					mr.FlushAll()
+				}
+				mr.Close()
+			}
+		}
+		c.close([]string{"cross-store", "baseline:loaded:cookie", "baseline:loaded:redis", "baseline:loaded:csrf", "baseline:loaded:split",
 			"load:accepted", "load:rejected", "class:subst:rejected", "class:trunc:rejected", "class:extend:rejected",
 			"class:splice:rejected", "class:resign:rejected", "class:xname:rejected", "class:ts:rejected", "class:shift:rejected",
 			"class:parts:rejected", "class:split-subst:rejected", "class:sigbits:accepted", "leakscan:cookie", "leakscan:redis", "leakscan:csrf",
